@@ -1355,5 +1355,7 @@ func (x *Unit) entryRefFact(lv *LV) {
 	}
 	x.entryFacts[k] = true
 	v0 := Select(h0, lv.ref)
-	x.fact(And(Cmp(">=", v0, IntLit(0)), Cmp("<=", x.proot(v0), x.entry.alloc)))
+	// only cells of objects that existed at entry: cells beyond entry.alloc stand for the (arbitrary) contents of objects
+	// allocated later by callees whose frame leaves the heap arrays untouched
+	x.fact(Imp(Cmp("<=", x.proot(lv.ref), x.entry.alloc), And(Cmp(">=", v0, IntLit(0)), Cmp("<=", x.proot(v0), x.entry.alloc))))
 }
